@@ -336,6 +336,18 @@ var Schemas = []Schema{
 	{"stmt-labeled-break", func(g *G) *Change {
 		return &Change{Kind: "stmts", Meta: mv("l", "identifier"), Lines: lines("-break «l»", "+continue «l»")}
 	}},
+	{"stmt-ctx-two-dots", func(g *G) *Change {
+		return &Change{Kind: "stmts", Meta: mv("x", "expression"), Lines: lines(" target(‹1:args›, «x», ‹2:args›)", "+after(«x»)")}
+	}},
+	{"stmt-ctx-three-dots", func(g *G) *Change {
+		return &Change{Kind: "stmts", Meta: mv("x", "expression", "y", "expression"), Lines: lines("-pre(«y»)", " target(‹1:args›, «x», ‹2:args›, «y», ‹3:args›)", "+after(«x», «y»)")}
+	}},
+	{"decl-ctx-two-dots", func(g *G) *Change {
+		return &Change{Kind: "decl", Meta: mv("f", "identifier"), Lines: lines(" func «f»(‹1:params›) (‹2:results›, tgtErr) {", "+  enter()", "   ‹3:stmts›", " }")}
+	}},
+	{"expr-ctx-composite-two-dots", func(g *G) *Change {
+		return &Change{Kind: "stmts", Meta: mv("v", "identifier", "x", "expression"), Lines: lines(" «v» := Tgt{‹1:elts›, «x», ‹2:elts›}", "-use(«v»)", "+use(«v», «x»)")}
+	}},
 	// expression patterns of fixed shape
 	{"expr-ident-rename", func(g *G) *Change {
 		return &Change{Kind: "expr", Lines: lines("-oldName", "+newName")}
